@@ -9,6 +9,7 @@ import (
 
 	abci "github.com/cometbft/cometbft/abci/types"
 	cmttypes "github.com/cometbft/cometbft/types"
+	cryptotypes "github.com/cosmos/cosmos-sdk/crypto/types"
 	sdk "github.com/cosmos/cosmos-sdk/types"
 	authcodec "github.com/cosmos/cosmos-sdk/x/auth/codec"
 	cosmostypes "github.com/cosmos/cosmos-sdk/x/staking/types"
@@ -49,6 +50,11 @@ type TVOp struct {
 	Pid, PH       uint64
 	Execs         []string
 	Batch         []KP
+	// register: literal operator string / consensus-key JSON (when non-empty they replace the
+	// strings derived from Op / Key; Op and Key are then what the address codec / the interface
+	// registry - called directly, not through the keeper - make of them: 0 = undecodable)
+	OpStr, KeyStr string
+	BadExec       bool // set by Do: some executor string does not decode (address codec, called directly)
 }
 
 func (o TVOp) Coq() string {
@@ -92,7 +98,14 @@ func (o TVOp) String() string {
 	case "end":
 		return fmt.Sprintf("end(%d)", o.H)
 	case "register":
-		return fmt.Sprintf("register(pid=%d,h=%d,op%d,key%d,%d execs)", o.Pid, o.PH, o.Op, o.Key, len(o.Execs))
+		x := fmt.Sprintf("register(pid=%d,h=%d,op%d,key%d,execs=%q", o.Pid, o.PH, o.Op, o.Key, o.Execs)
+		if o.OpStr != "" {
+			x += fmt.Sprintf(",operator=%q", o.OpStr)
+		}
+		if o.KeyStr != "" {
+			x += fmt.Sprintf(",key=%q", o.KeyStr)
+		}
+		return x + ")"
 	case "engine":
 		return fmt.Sprintf("engine%v", o.Batch)
 	case "dryblock":
@@ -480,6 +493,24 @@ func (r *ValRun) Do(o TVOp) ValSnap {
 		if o.Key != 0 {
 			keyStr = ve.keyJS[o.Key-1]
 		}
+		if o.OpStr != "" {
+			opStr, o.Op = o.OpStr, 0
+			if b, err := ve.valBytes(o.OpStr); err == nil {
+				o.Op = ve.op(b)
+			}
+		}
+		if o.KeyStr != "" {
+			keyStr, o.Key = o.KeyStr, 0
+			var pk cryptotypes.PubKey
+			if err := e.Enc.Marshaler.UnmarshalInterfaceJSON([]byte(o.KeyStr), &pk); err == nil && pk != nil {
+				o.Key = ve.key(pk.Address())
+			}
+		}
+		for _, x := range o.Execs {
+			if _, err := e.AK.AddressCodec().StringToBytes(x); err != nil {
+				o.BadExec = true
+			}
+		}
 		// the plan table is a Go map on the keeper, not store state: no cache to discard
 		err := func() (err error) {
 			defer func() {
@@ -520,6 +551,28 @@ func (r *ValRun) Coq() string {
 	var tbl []string
 	for _, u := range e.Users {
 		tbl = append(tbl, fmt.Sprintf("(%s, %s)", coqStr(u.Str), coqU(u.ID)))
+	}
+	// other decodable spellings used as executor addresses (the real codec decides)
+	seen := map[string]bool{}
+	for _, u := range e.Users {
+		seen[u.Str] = true
+	}
+	for _, o := range r.Ops {
+		for _, x := range o.Execs {
+			if seen[x] {
+				continue
+			}
+			seen[x] = true
+			if b, err := e.AK.AddressCodec().StringToBytes(x); err == nil {
+				id := uint64(900)
+				for _, u := range e.Users {
+					if bytes.Equal(u.Addr, b) {
+						id = u.ID
+					}
+				}
+				tbl = append(tbl, fmt.Sprintf("(%s, %s)", coqStr(x), coqU(id)))
+			}
+		}
 	}
 	ops, obs := []string{}, []string{}
 	for _, o := range r.Ops {
